@@ -270,9 +270,9 @@ class Layout:
     def comment(self):
         r = self.r
         if r.chance(1, 2):
-            body = r.choice(["", " c ", " struct x { int a; }; ", "*", " // ", "é ☃ ", " int x; "])
+            body = r.choice(["", " c ", " struct x { int a; }; ", "*", " // ", "é ☃ ", " int x; ", "\n%", "\n% #include <x.h> ", " #define X 1\n# "])
             return "/*" + body + "*/"
-        return "//" + r.choice(["", " c", " case 1: void;", "/* open", " é"]) + self.nl
+        return "//" + r.choice(["", " c", " case 1: void;", "/* open", " é", "% x", "*/"]) + self.nl
 
     def sep(self, need_ws=False, lead_ws=False):
         """between two tokens. need_ws: something must separate them. lead_ws: must start with whitespace."""
@@ -406,7 +406,7 @@ def shuffled(items, rng):
 def out_of_subset(gen, rng):
     """One grammar-valid specification using a construct outside the supported subset.  Returns (items, tag)."""
     items, meta = gen.supported(ndecl=2 + rng.below(3))
-    c = rng.below(17)
+    c = rng.below(18)
     tag = ""
     s = {"k": "struct", "name": gen.fresh("s"), "fields": [{"ty": "int", "name": "a", "arr": None, "opt": False}]}
     if c == 0:
@@ -509,6 +509,25 @@ def out_of_subset(gen, rng):
             items.append({"k": "typedef", "ty": rng.choice(["opaque", s["name"]]), "name": gen.fresh("t"), "arr": ["var", k]})
         else:
             items.append({"k": "typedef", "ty": rng.choice(["opaque", "int", s["name"]]), "name": gen.fresh("t"), "arr": ["fixed", k]})
+        items.append(s)
+    elif c == 16:
+        tag = "constant-cycle"
+        # constants defined in terms of each other (grammar-valid) used as a case label, a bound, an enum value: whatever walks the chain has to stop
+        k1, k2 = gen.fresh("K"), gen.fresh("K")
+        ring = rng.choice([[(k1, k1)], [(k1, k2), (k2, k1)], [(k1, k2), (k2, gen.fresh("K") + "x")]])
+        for nm, val in ring:
+            items.append({"k": "const", "name": nm, "val": val})
+        use = rng.below(4)
+        if use == 0:
+            items.append({"k": "union", "name": gen.fresh("u"), "swty": rng.choice(["int", "unsigned int"]), "swvar": "d", "arms": [
+                {"labels": [k1], "body": {"ty": "int", "name": "x", "arr": None}}, {"labels": ["7"], "body": "void"}]})
+        elif use == 1:
+            items.append({"k": "union", "name": gen.fresh("u"), "swty": "int", "swvar": "d", "arms": [
+                {"labels": ["1"], "body": {"ty": "int", "name": "x", "arr": None}}, {"labels": [k1], "body": "void"}]})
+        elif use == 2:
+            s["fields"].append({"ty": "opaque", "name": "o", "arr": [rng.choice(["fixed", "var"]), k1], "opt": False})
+        else:
+            items.append({"k": "enum", "name": gen.fresh("en"), "members": [[gen.fresh("M"), k1]]})
         items.append(s)
     else:
         tag = "var-array-of-primitive"
